@@ -1,14 +1,17 @@
 #!/bin/sh
 # tools/seedtest.sh <seeded-id> [tier]: apply seeded/<id>/patch.diff to /repo, run the check of the property it
 # breaks, undo the patch.  Prints the check's tail and DETECTED / MISSED.
+# (SEED_VERIF / SEED_REPO: run in a private clone made by tools/mkworkspace.sh instead — used by tools/seedall_par.sh)
 id="$1"; tier="${2:-quick}"
+V="${SEED_VERIF:-/verif}"; R="${SEED_REPO:-/repo}"
+tag=$(echo "$V" | tr '/' '_')
 d=/verif/seeded/$id
 pid=$(python3 -c "import json;print(json.load(open('$d/meta.json'))['property'])")
-git -C /repo diff --quiet || { echo "/repo is dirty"; exit 2; }
-git -C /repo apply "$d/patch.diff" || { echo "patch does not apply"; exit 2; }
-cp /verif/evidence/$pid.json /tmp/seedtest-evidence-$pid.json 2>/dev/null
-cd /verif && ./check "$pid" --tier "$tier" > /tmp/seedtest-$id.log 2>&1; rc=$?
-cp /verif/evidence/$pid.json /tmp/seedtest-$id.evidence.json 2>/dev/null; cp /tmp/seedtest-evidence-$pid.json /verif/evidence/$pid.json 2>/dev/null   # evidence of a seeded run is not evidence
-git -C /repo checkout -- . ; git -C /repo clean -fdq -- . 2>/dev/null
+git -C "$R" diff --quiet || { echo "$R is dirty"; exit 2; }
+git -C "$R" apply "$d/patch.diff" || { echo "patch does not apply"; exit 2; }
+cp "$V/evidence/$pid.json" /tmp/seedtest-evidence$tag-$pid.json 2>/dev/null
+cd "$V" && VERIF_REPO="$R" ./check "$pid" --tier "$tier" > /tmp/seedtest-$id.log 2>&1; rc=$?
+cp "$V/evidence/$pid.json" /tmp/seedtest-$id.evidence.json 2>/dev/null; cp /tmp/seedtest-evidence$tag-$pid.json "$V/evidence/$pid.json" 2>/dev/null   # evidence of a seeded run is not evidence
+git -C "$R" checkout -- . ; git -C "$R" clean -fdq -- . 2>/dev/null
 tail -5 /tmp/seedtest-$id.log
 if [ $rc -ne 0 ] && grep -q "^VIOLATION property=$pid" /tmp/seedtest-$id.log; then echo "SEED $id: DETECTED (rc=$rc)"; else echo "SEED $id: MISSED (rc=$rc)"; fi
